@@ -11,9 +11,33 @@ SYSINJ = os.path.join(TOOLS, "bin", "sysinj")
 
 
 def build_tracer():
-    p = subprocess.run(["make", "-s", "-C", TOOLS, "bin/sysinj"], stdout=subprocess.PIPE, stderr=subprocess.STDOUT, text=True)
-    if p.returncode != 0 or not os.path.exists(SYSINJ):
-        raise core.ToolError("cannot build tools/sysinj:\n" + p.stdout[-2000:])
+    """Compile tools/sysinj.c into work/tools/sysinj-<hash of the source> (never a stale binary:
+    the name is derived from the source text; tools/Makefile builds the same thing for bin/setup)."""
+    global SYSINJ
+    import hashlib
+    src = os.path.join(TOOLS, "sysinj.c")
+    h = hashlib.sha1(open(src, "rb").read()).hexdigest()[:12]
+    outdir = os.path.join(core.WORK, "tools")
+    os.makedirs(outdir, exist_ok=True)
+    out = os.path.join(outdir, "sysinj-" + h)
+    if not os.path.exists(out):
+        hdr = "/usr/include/x86_64-linux-gnu/asm/unistd_64.h"
+        names, top = [], 0
+        for line in open(hdr):
+            parts = line.split()
+            if len(parts) == 3 and parts[0] == "#define" and parts[1].startswith("__NR_") and parts[2].isdigit():
+                names.append('  [%s] = "%s",' % (parts[2], parts[1][5:]))
+                top = max(top, int(parts[2]))
+        inc = os.path.join(outdir, "inc-" + h)
+        os.makedirs(inc, exist_ok=True)
+        with open(os.path.join(inc, "sysnames.h"), "w") as f:
+            f.write("static const char *sysnames[] = {\n%s\n};\n#define NSYSNAMES %d\n" % ("\n".join(names), top + 1))
+        tmp = "%s.%d.tmp" % (out, os.getpid())
+        p = subprocess.run(["gcc", "-O2", "-Wall", "-I" + inc, "-o", tmp, src], stdout=subprocess.PIPE, stderr=subprocess.STDOUT, text=True)
+        if p.returncode != 0:
+            raise core.ToolError("cannot build tools/sysinj.c:\n" + p.stdout[-2000:])
+        os.replace(tmp, out)
+    SYSINJ = out
     return SYSINJ
 
 
